@@ -2,7 +2,7 @@
    inputs to this function (extracted to OCaml) and to the JAX implementation. *)
 From Coq Require Import ZArith QArith Qcanon List Bool.
 From EXV Require Import Base.Scalar Base.FieldLemmas Base.Cplx Exec.Codec.
-From EXV Require Import Utils.Rollout Gen.ETDRK Gen.Guards Spectral.Symbols Gen.GenericUtils Steppers.Linear.
+From EXV Require Import Utils.Rollout Gen.ETDRK Gen.Guards Spectral.Symbols Gen.GenericUtils Steppers.Linear Layout.Freq.
 Import ListNotations.
 Local Open Scope Z_scope.
 
@@ -201,12 +201,30 @@ Definition run_conv (a : list Q) : list Q :=
   | _ => []
   end.
 
+(* ---- C04: integer layout ---- *)
+Definition run_c04 (sub : Z) (a : list Q) : list Q :=
+  let z i := qz (getq a i) in let b i := qb (getq a i) in let n i := qn (getq a i) in
+  match sub with
+  | 1 => [zq (wavenumber (b 0%nat) (n 1%nat) (z 2%nat) (n 3%nat) (zs (skipn 4 a)))]
+  | 2 => [zq (wn_axis_len (b 0%nat) (n 1%nat) (z 2%nat) (n 3%nat))]
+  | 3 => [bq ((if b 0%nat then low_pass_radial else low_pass_axis) (n 1%nat) (z 2%nat) (z 3%nat) (zs (skipn 4 a)))]
+  | 4 => [bq (oddball_mask (n 0%nat) (z 1%nat) (zs (skipn 2 a)))]
+  | 5 => let dd := mode_denoms (z 2%nat) in [zq (scaling_halvings (n 0%nat) (z 1%nat) (fst dd) (snd dd) (zs (skipn 3 a)))]
+  | 6 => [bq (match z 2%nat with 0 => in_left (z 0%nat) (z 1%nat) (z 3%nat) | 1 => in_right (z 0%nat) (z 1%nat) (z 3%nat)
+               | _ => in_last (z 0%nat) (z 1%nat) (z 3%nat) end)]
+  | 7 => [zq (wrap_index (z 0%nat) (z 1%nat))]
+  | 8 => [bq (dealias_keeps (z 0%nat) (z 1%nat) (z 2%nat) (z 3%nat))]
+  | 9 => map zq (wavenumber_shape (n 0%nat) (z 1%nat))
+  | _ => []
+  end.
+
 Definition run (id : Z) (a : list Q) : list Q :=
   let '(prop, sub) := Z.div_eucl id 100 in
   match prop with
   | 14 => run_c14 sub a
   | 2 => run_c02 sub a
   | 20 => run_c20 sub a
+  | 4 => run_c04 sub a
   | 1 => match sub with 1 => run_sym a | 2 => run_wave a | _ => [] end
   | 13 => match sub with 1 => run_conv a | _ => [] end
   | _ => []
